@@ -49,6 +49,13 @@ _TABLE = [
      "`self.backward.unwrap()`: next_back assigns Some(len) immediately before calling"),
     ("sos_vault::encoding::secret::<impl binary_stream::futures::Decodable for sos_vault::secret::Secret>::decode", "may-panic", "vec-position:remove", 1,
      "`cards.remove(0)` after vcard4::parse, which returns Err (not an empty list) when no card is present (vcard4 0.7.2, checked); input is AEAD-decrypted plaintext"),
+    # server request handlers (C15-R5)
+    ("sos_server::handlers::account::handlers::sync_status", "unwrap", "unwrap", 1,
+     "`accounts.get(id).unwrap()` after `account_exists(id)` while the Backend read guard taken at the top is still alive; removing an account needs Backend::delete_account(&mut self), i.e. the write guard"),
+    ("sos_server::handlers::websocket::WebSocketAccount::broadcast", "unwrap", "unwrap", 1,
+     "`caller.connection_id().as_ref().unwrap()` is the right operand of `connection_id().is_none() || ..` (short-circuit)"),
+    ("sos_server::handlers::Caller::connection_id", "may-panic", "index:index", 1,
+     "`&s[..]` full-range slice of a String never panics"),
 ]
 
 
